@@ -7,6 +7,8 @@ import (
 	"sync"
 
 	v1 "k8s.io/api/core/v1"
+	"k8s.io/apimachinery/pkg/api/resource"
+	resourcehelper "k8s.io/component-helpers/resource"
 
 	"volcano.sh/volcano/pkg/scheduler/api"
 	"volcano.sh/volcano/pkg/scheduler/cache"
@@ -35,6 +37,7 @@ const (
 	itPodAdd      = 4 // a pod arrives (possibly before its node)
 	itUnbound     = 5 // pod update / resync whose object still has no nodeName (Flag: same resourceVersion)
 	itRemoveNode  = 7 // node deleted (Task = node id)
+	itFlow        = 9 // agent stream: execute the queued binds (pre-binders, Binder.Bind); Fails = tasks whose PreBind fails
 	itBound       = 6 // the update that shows the pod bound to the node the cache bound it to (delivered only if the cache holds it as Binding)
 )
 
@@ -45,6 +48,7 @@ type item struct {
 	Task int64
 	Pod  sched.TaskSpec
 	Flag bool
+	Fails []int64
 }
 
 func (b bindCase) hasEvents() bool {
@@ -82,6 +86,9 @@ func (b bindCase) enc() []int64 {
 			out = append(out, it.Task)
 		case itUnbound:
 			out = append(out, it.Task, vh.B(it.Flag))
+		case itFlow:
+			out = append(out, int64(len(it.Fails)))
+			out = append(out, it.Fails...)
 		case itPodAdd:
 			t := it.Pod
 			out = append(out, sched.EpsUnits, t.ID, t.Job, t.Role, t.Prio, t.CPU, t.Mem, t.GPU, t.Status, t.Node, vh.B(t.Preemptable))
@@ -120,6 +127,8 @@ func decBind(in []int64) bindCase {
 		case itUnbound:
 			it.Task = r.Next()
 			it.Flag = r.Bool()
+		case itFlow:
+			it.Fails = r.Ints()
 		case itPodAdd:
 			_ = r.Next()
 			it.Pod = sched.TaskSpec{ID: r.Next(), Job: r.Next(), Role: r.Next(), Prio: r.Next(), CPU: r.Next(), Mem: r.Next(),
@@ -348,12 +357,64 @@ func (b bindCase) finalSpecs() bindCase {
 	return out
 }
 
+// Selector 6 (seeded mutant C02-r7-2): the same admission path on pods whose request is not what their
+// regular containers ask: a scalar (the GPU) is requested ONLY by an init container while the regular
+// container carries another scalar.  The case's spec carries the EFFECTIVE request, computed here with the
+// upstream helper resourcehelper.PodRequests -- independently of TaskInfo.Resreq -- so that a Resreq
+// that understates the pod shows up as overcommit in law 112.  Only the admission results are compared
+// with the model (the node ledgers carry the extra scalar the model does not know).
+const FooName = "example.com/foo"
+
+func init() {
+	// the dump encoders of internal/sched know scalars by number
+	sched.ScalarKey[FooName] = 5
+	sched.ScalarName[5] = FooName
+}
+
+func initPod(t sched.TaskSpec) *v1.Pod {
+	pod := t.Pod()
+	if t.GPU == 0 {
+		return pod
+	}
+	main := pod.Spec.Containers[0].Resources.Requests
+	delete(main, sched.GPUName)
+	main[FooName] = *resource.NewQuantity(1, resource.DecimalSI)
+	pod.Spec.InitContainers = []v1.Container{{Name: "init", Resources: v1.ResourceRequirements{Requests: v1.ResourceList{
+		v1.ResourceCPU: *resource.NewMilliQuantity(100, resource.DecimalSI),
+		sched.GPUName:  *resource.NewQuantity(t.GPU, resource.DecimalSI),
+	}}}}
+	// the independent computation of what the pod asks for
+	eff := resourcehelper.PodRequests(pod, resourcehelper.PodResourcesOptions{})
+	if g := eff[sched.GPUName]; g.Value() != t.GPU {
+		panic(fmt.Sprintf("upstream PodRequests gives %v GPUs for t%d, the spec says %d", g.Value(), t.ID, t.GPU))
+	}
+	if c := eff[v1.ResourceCPU]; c.MilliValue() != t.CPU {
+		panic("the init container must not dominate the cpu request")
+	}
+	return pod
+}
+
+func runBindInit(in []int64) ([]int64, []int64) { return runBindWith(in, true) }
+
 // runBind: selector 2.
-func runBind(in []int64) ([]int64, []int64) {
+func runBind(in []int64) ([]int64, []int64) { return runBindWith(in, false) }
+
+func runBindWith(in []int64, initFam bool) ([]int64, []int64) {
 	b := decBind(in)
+	podOf := func(t sched.TaskSpec) *v1.Pod {
+		if initFam {
+			return initPod(t)
+		}
+		return t.Pod()
+	}
 	sc := cache.NewCustomMockSchedulerCache("volcano", util.NewFakeBinder(0), util.NewFakeEvictor(0), &util.FakeStatusUpdater{}, nil, nil)
 	for _, n := range b.Nodes {
-		if err := sc.AddOrUpdateNode(n.Object()); err != nil {
+		o := n.Object()
+		if initFam {
+			o.Status.Allocatable[FooName] = *resource.NewQuantity(100, resource.DecimalSI)
+			o.Status.Capacity[FooName] = *resource.NewQuantity(100, resource.DecimalSI)
+		}
+		if err := sc.AddOrUpdateNode(o); err != nil {
 			panic(err)
 		}
 	}
@@ -362,7 +423,7 @@ func runBind(in []int64) ([]int64, []int64) {
 	curPod := map[int64]*v1.Pod{}
 	specOf := map[int64]sched.TaskSpec{}
 	for _, t := range tasks {
-		curPod[t.ID] = t.Pod()
+		curPod[t.ID] = podOf(t)
 		specOf[t.ID] = t
 		sc.AddPod(curPod[t.ID])
 	}
@@ -389,7 +450,7 @@ func runBind(in []int64) ([]int64, []int64) {
 		if s, ok := snap[c[1]]; ok {
 			ti = s.Clone()
 		} else if sp, ok := specOf[c[1]]; ok {
-			ti = api.NewTaskInfo(sp.Pod()) // a pod that arrives later, seen by a worker's later snapshot
+			ti = api.NewTaskInfo(podOf(sp)) // a pod that arrives later, seen by a worker's later snapshot
 		} else {
 			ti = unknownTask(c[0], c[1])
 		}
@@ -527,6 +588,9 @@ func runBind(in []int64) ([]int64, []int64) {
 	lastLaw = append(replay.finalSpecs().enc(), held...)
 	lastSig = ""
 	lastLawExcused = nil
+	if initFam {
+		got = got[:1+len(order)] // admission results only
+	}
 	// (An accepted call on an entry without Node object was known finding
 	// C02-bind-to-placeholder-node-unchecked until /repo fix 8dab8c3; no signature is attached any
 	// more: it is a plain law 112 / correspondence failure again.)
@@ -1014,7 +1078,30 @@ func podsFullCase(r *vh.Rng, agent bool) bindCase {
 	return b
 }
 
+// initScalarCase (directed): a node with g GPUs; pods whose GPU is asked by an init container only (the
+// regular container carries another scalar); more of them than the node has GPUs for.
+func initScalarCase(r *vh.Rng) bindCase {
+	var b bindCase
+	g := int64(r.Range(1, 3))
+	b.Nodes = []sched.NodeSpec{{ID: 1, Has: true, CPU: 16000, Mem: 64 << 20, Pods: 30, GPU: g}}
+	np := int(g) + r.Range(1, 3)
+	for k := 1; k <= np; k++ {
+		b.Tasks = append(b.Tasks, sched.TaskSpec{ID: int64(k), Job: 1, Role: 1, CPU: int64(r.Range(1, 3)) * 250, Mem: 1 << 20, GPU: 1, Status: sched.SPending})
+		b.Items = append(b.Items, item{Kind: itBind, Bind: [3]int64{1, int64(k), 1}})
+	}
+	b.Jobs = []sched.JobSpec{{ID: 1, Queue: 1}}
+	b.Workers = int64(r.Range(1, 4))
+	b.Exact = r.Chance(1, 2)
+	return b
+}
+
 func genBind(rng *vh.Rng, n int, emit func(id string, sel int, in []int64, kind string, nontrivial bool, desc any)) {
+	ir := rng.Fork()
+	for i := 0; i < max(4, n/50); i++ {
+		b := initScalarCase(ir.Fork())
+		emit(fmt.Sprintf("bind-initscalar-%d", i), 6, b.enc(), "bind/cache/initscalar", true,
+			map[string]any{"directed": "GPU asked by an init container only, more pods than GPUs", "items": len(b.Items), "workers": b.Workers})
+	}
 	qr := rng.Fork()
 	for i := 0; i < max(4, n/50); i++ {
 		b := podsFullCase(qr.Fork(), false)
